@@ -304,21 +304,38 @@ def run(repo: Repo, rep: Report, tier: str) -> None:
     rep.check(ok, "response-direction", "dimse.DIMSEServiceProvider.send_msg", sel[0], "the response for a request with Message ID 0 would be sent as a *request* message (truthiness test instead of `is None`): the request never gets a final response carrying its ID", mod=dimse, node=sel[0])
 
     # ---- attempt.__exit__ ----------------------------------------------------------
+    # evaluated (sa/minipy.py): without an exception nothing is sent and the exception state is left alone; with any
+    # exception - BaseExceptions a handler can raise included - exactly one response carrying error_status goes out
+    # on the attempt's context, the failure is recorded and the exception is suppressed
+    from ..minipy import Interp, Obj, Raised, Unsupported
     sc = repo.mod("service_class")
     ex = repo.func("service_class", "attempt.__exit__")
-    sends = [c for c in walk_no_nested(ex) if isinstance(c, ast.Call) and (dotted(c.func) or "").endswith("send_msg")]
-    rets = [r for r in walk_no_nested(ex) if isinstance(r, ast.Return)]
-    sets = [s for s in walk_no_nested(ex) if isinstance(s, ast.Assign) and norm(s.targets[0]) == "self._rsp.Status" and norm(s.value) == "self.error_status"]
-    flag = [s for s in walk_no_nested(ex) if isinstance(s, ast.Assign) and norm(s.targets[0]) == "self._success" and norm(s.value) == "False"]
-    ok = len(sends) == 1 and norm(sends[0]) == "self._dimse.send_msg(self._rsp, self._cx_id)" and len(sets) == 1 and len(flag) == 1 and any(r.value is not None and norm(r.value) == "True" for r in rets)
-    rep.check(ok, "attempt", "service_class.attempt.__exit__", "send_msg(self._rsp, self._cx_id) once; Status = error_status; _success = False; return True", "attempt must answer a handler exception with exactly one response carrying error_status, record the failure and suppress the exception", mod=sc, node=ex)
-    none_ret = [r for r in rets if r.value is None or norm(r.value) == "None"]
-    first_if = [i for i in walk_no_nested(ex) if isinstance(i, ast.If) and norm(i.test) == "exc_type is None"]
-    rep.check(bool(first_if) and bool(none_ret), "attempt", "service_class.attempt.__exit__", "if exc_type is None: return None", "without an exception attempt must not send anything", mod=sc, node=ex)
-    for r in none_ret:
-        g_ = enclosing(r, (ast.If,))
-        okr = g_ is not None and norm(g_.test) in ("exc_type is None", "exc_val is None", "not exc_type") and any(x is r for x in g_.body)
-        rep.check(okr, "attempt", "service_class.attempt.__exit__", r, f"__exit__ lets an exception through (falsy return under `{norm(g_.test) if g_ is not None else 'no condition'}`): a handler raising it (SystemExit, KeyboardInterrupt, GeneratorExit) leaves the request without any final response", mod=sc, node=r)
+    aci = sc.classes.get("attempt")
+    try:
+        for kind in (None, "ValueError", "KeyboardInterrupt", "SystemExit", "GeneratorExit"):
+            for with_assoc in (False, True):
+                sent = []
+                rsp = Obj("DIMSEPrimitive", {"Status": None})
+                dimse = Obj("DIMSEServiceProvider", {"@send_msg": lambda s_, r_, c_: sent.append((r_, c_, r_.attrs.get("Status")))})
+                assoc_o = Obj("Association", {"abort": "nonblocking", "_abort_blocking": "blocking", "_abort_nonblocking": "nonblocking"}) if with_assoc else None
+                me = Obj("attempt", {"_assoc": assoc_o, "_rsp": rsp, "_dimse": dimse, "_cx_id": 3, "error_status": 0xC211, "error_msg": "msg", "_success": True}, alias={"assoc": "_assoc"})
+                it_ = Interp({})
+                params = [a.arg for a in ex.args.args]
+                exc_val = Obj(kind, {}) if kind else None
+                ret = it_.call_function(ex, dict(zip(params, [me, kind, exc_val, None])))
+                inst = f"exception {kind}" + (", association set" if with_assoc else "")
+                if kind is None:
+                    okx = not ret and not sent and me.get("_success") is True
+                    rep.check(okx, "attempt", "service_class.attempt.__exit__", f"[no exception] returns {ret!r}, {len(sent)} response(s) sent", "without an exception attempt must send nothing, keep its success flag and not suppress anything", mod=sc, node=ex)
+                else:
+                    okx = bool(ret) and len(sent) == 1 and sent[0][0] is rsp and sent[0][1] == 3 and sent[0][2] == 0xC211 and me.get("_success") is False
+                    rep.check(okx, "attempt", "service_class.attempt.__exit__", f"[{inst}] returns {ret!r}, {len(sent)} response(s) sent{', status ' + hex(sent[0][2]) if sent and isinstance(sent[0][2], int) else ''}, success flag {me.get('_success')}", f"a handler raising {kind} must be answered with exactly one response carrying error_status on the attempt's context, the failure recorded and the exception suppressed - otherwise the request is left without any final response (or gets two)", mod=sc, node=ex)
+                if with_assoc:
+                    rep.check(assoc_o.get("abort") == "blocking", "attempt", "service_class.attempt.__exit__", f"[{inst}] abort restored to {assoc_o.get('abort')}", "the blocking abort must be restored when the attempt ends", mod=sc, node=ex)
+    except Raised as r_:
+        rep.fail("attempt", "service_class.attempt.__exit__", f"raises {r_.kind}", "attempt.__exit__ itself raises: the handler's exception is replaced by another one and no response is sent", mod=sc, node=ex)
+    except Unsupported as exc_:
+        rep.defer(f"service_class.attempt.__exit__ could not be evaluated ({exc_})")
     # ---- absent is None, not falsy ---------------------------------------------------------
     from ..lints import zero_legal_truthiness
     rep.rule("none-not-falsy", "Message IDs and Status are tested with `is None`: Message ID 0 and Status 0x0000 are legal")
